@@ -95,7 +95,7 @@ BinOps == ArithOps \cup RelOps \cup LogicOps \cup {"mod"}
 \* static result type of a binary operator (numeric operands)
 ResType(op, ta, tb) ==
   CASE op \in {"+", "-", "*"} -> Wider(ta, tb)
-    [] op = "/" -> IF ta \in {"I", "S"} /\ tb \in {"I", "S"} THEN "S" ELSE "D"
+    [] op = "/" -> LET w == Wider(ta, tb) IN IF w = "I" THEN "S" ELSE IF w = "L" THEN "D" ELSE w
     [] OTHER -> "I"
 
 Bool(b) == Val("I", IF b THEN -1 ELSE 0)
